@@ -133,6 +133,10 @@ def rel_tol(dtype):
 
 
 def close_arrays(exp, got, rtol):
+    from sim.oracle import chaos
+
+    if chaos():
+        return False
     exp = np.asarray(exp, dtype=np.float64)
     got = np.asarray(got, dtype=np.float64)
     if exp.shape != got.shape:
